@@ -224,11 +224,11 @@ fn strategy(tier: Tier) -> BoxedStrategy<Case> {
 }
 
 pub fn checks() -> Vec<Box<dyn DynCheck>> {
-    vec![Box::new(C02), Box::new(super::extendpaths::ExtCms), Box::new(super::extendpaths::HashIterCheck), Box::new(super::giant::Giant)]
+    vec![Box::new(C02), Box::new(super::extendpaths::ExtCms), Box::new(super::extendpaths::HashIterCheck), Box::new(super::giant::Giant), Box::new(HeavyMerge)]
 }
 
 pub fn run(ctx: &Ctx) {
-    ctx.set_rule("generated: w in 1..=64 (rarely up to 3000, very rarely 65535..65537, 2^20, 2^20+1), d in 1..=8 (rarely up to 24, very rarely up to 300 incl. 63..65, 128, 129, 255..257; w != d in most cases, both w > d and d > w), counter type in {u8,u16,u32,u64,usize}, hashers incl. row colliders (Split with chosen h1/h2, Const, Mod), universe <=32 keys, history of add/add_n/merge/clear with weights scaled to the remaining head-room so the documented overflow panic is never provoked. After every op, for every universe key: true(x) <= query_point(x) <= N; add/add_n return == query_point right after; a single distinct element is exact. Non-trivial: an overestimate was observed (two keys share a cell in every row), or a merge followed by an add, or w != d with d >= 2. Distinct = hash of the case; evaluations = operations executed. extend_path: default-hasher CountMinSketch (w 1..64, d 1..4) fed through Extend::extend in generated chunks: query_point never below the true count after any chunk and equal to a sketch filled by add calls. hash_iter: HashIterBuilder::new(m, k, hasher) for m in 1..2^31 and k in 0..=40 under the generated hasher families: iter_for yields exactly k values, all in [0, m), deterministically, f(i) in [0, m), and values #2.. equal (h1 + i*h2 + f(i)) mod m with h1, h2 solved from values #0 and #1 (the documented enhanced double hashing). giant_tables: u8 sketches with w = 2^31+3, 2^32+1 (d = 1) and 2^30 (d = 3): getters, add's return value == query_point, true <= query_point <= N for 60 keys.");
+    ctx.set_rule("generated: w in 1..=64 (rarely up to 3000, very rarely 65535..65537, 2^20, 2^20+1), d in 1..=8 (rarely up to 24, very rarely up to 300 incl. 63..65, 128, 129, 255..257; w != d in most cases, both w > d and d > w), counter type in {u8,u16,u32,u64,usize}, hashers incl. row colliders (Split with chosen h1/h2, Const, Mod), universe <=32 keys, history of add/add_n/merge/clear with weights scaled to the remaining head-room so the documented overflow panic is never provoked. After every op, for every universe key: true(x) <= query_point(x) <= N; add/add_n return == query_point right after; a single distinct element is exact. Non-trivial: an overestimate was observed (two keys share a cell in every row), or a merge followed by an add, or w != d with d >= 2. Distinct = hash of the case; evaluations = operations executed. extend_path: default-hasher CountMinSketch (w 1..64, d 1..4) fed through Extend::extend in generated chunks: query_point never below the true count after any chunk and equal to a sketch filled by add calls. hash_iter: HashIterBuilder::new(m, k, hasher) for m in 1..2^31 and k in 0..=40 under the generated hasher families: iter_for yields exactly k values, all in [0, m), deterministically, f(i) in [0, m), and values #2.. equal (h1 + i*h2 + f(i)) mod m with h1, h2 solved from values #0 and #1 (the documented enhanced double hashing). giant_tables: u8 sketches with w = 2^31+3, 2^32+1 (d = 1) and 2^30 (d = 3): getters, add's return value == query_point, true <= query_point <= N for 60 keys. heavy_disjoint_merge: two sketches (w 2..1024, d 1..5, every counter type) each holding one element with a count between 1/2 and 1 of the counter maximum, the two elements sharing no cell in any row (cells computed through the public HashIterBuilder): merge must not panic and both counts are reported exactly.");
     ctx.assume("weights never overflow the counter type (checked_add panic is documented behaviour and not generated)");
     ctx.run_regressions(&[&C02]);
     let t = ctx.tier;
@@ -238,6 +238,7 @@ pub fn run(ctx: &Ctx) {
     // the documented contract of the hash iterator both CountMinSketch and BloomFilter index with
     ctx.run_random(&super::extendpaths::HashIterCheck, t.pick(60_000, 600_000), super::extendpaths::hash_iter_strategy);
     ctx.run_fixed(&super::giant::Giant, super::giant::cms_cases(ctx.seed));
+    ctx.run_random(&HeavyMerge, t.pick(20_000, 200_000), heavy_strategy);
     ctx.require_class("history", "overestimate_observed", 0.2);
     ctx.require_class("history", "merge_then_add", 0.2);
     ctx.require_class("history", "w!=d", 0.6);
@@ -245,4 +246,86 @@ pub fn run(ctx: &Ctx) {
         // coverage-guided search over the same case space (libFuzzer, 8 parallel campaigns)
         crate::engine::fuzz::run_sketch_ops(ctx, 0, 480_000);
     }
+}
+
+// ---------------------------------------------------------------- merges of heavy, cell-disjoint sketches
+
+/// Two sketches, each holding one heavy element with a count close to the counter type's maximum, whose cells are
+/// disjoint in every row (found through the public `HashIterBuilder`): no merged cell overflows, so `merge` must
+/// succeed and report both counts exactly, although the two largest counters together exceed the type's range.
+#[derive(Clone, Debug, Serialize, Deserialize)]
+pub struct HeavyCase {
+    pub w: usize,
+    pub d: usize,
+    pub ctype: CType,
+    pub seed: u64,
+    /// weights as fractions of the counter maximum, in 1/65536
+    pub fa: u16,
+    pub fb: u16,
+}
+
+pub struct HeavyMerge;
+
+macro_rules! heavy_typed {
+    ($t:ty, $c:expr) => {{
+        let c: &HeavyCase = $c;
+        let bh = GenBH(HKind::Seeded(c.seed % 1000));
+        let it = pdatastructs::hash_utils::HashIterBuilder::new(c.w, c.d, bh);
+        let cells = |x: u64| -> Vec<usize> { it.iter_for(&x).collect() };
+        let x = mix(c.seed, 1);
+        let cx = cells(x);
+        // a second key sharing no cell with the first in any row
+        let y = (0..10_000u64).map(|i| mix(c.seed, 100 + i)).find(|y| cells(*y).iter().zip(cx.iter()).all(|(a, b)| a != b));
+        match y {
+            None => Ok(false),
+            Some(y) => {
+                let max = <$t>::MAX as u128;
+                let wa = ((max * (32768 + c.fa as u128 / 2)) >> 16).max(1) as $t;
+                let wb = ((max * (32768 + c.fb as u128 / 2)) >> 16).max(1) as $t;
+                let mut a: CountMinSketch<u64, $t, GenBH> = CountMinSketch::with_params_and_hasher(c.w, c.d, bh);
+                let mut b: CountMinSketch<u64, $t, GenBH> = CountMinSketch::with_params_and_hasher(c.w, c.d, bh);
+                a.add_n(&x, &wa);
+                b.add_n(&y, &wb);
+                match catch(|| {
+                    a.merge(&b);
+                    (a.query_point(&x), a.query_point(&y))
+                }) {
+                    Err(p) => Err((format!("heavy-merge-{}", panic_sig(&p)), format!("merge of two sketches whose heavy elements ({} and {} of a maximum of {}) share no cell panicked: {} [w={}, d={}]", wa, wb, max, p, c.w, c.d))),
+                    Ok((qx, qy)) => {
+                        if qx != wa || qy != wb {
+                            Err(("heavy-merge:counts".into(), format!("after the merge query_point gives {} and {} for elements added with weights {} and {} (no shared cell) [w={}, d={}]", qx, qy, wa, wb, c.w, c.d)))
+                        } else {
+                            Ok(true)
+                        }
+                    }
+                }
+            }
+        }
+    }};
+}
+
+impl Check for HeavyMerge {
+    type Case = HeavyCase;
+    fn name(&self) -> &'static str {
+        "heavy_disjoint_merge"
+    }
+    fn eval(&self, c: &HeavyCase) -> Verdict {
+        let r: Result<bool, (String, String)> = match c.ctype {
+            CType::U8 => heavy_typed!(u8, c),
+            CType::U16 => heavy_typed!(u16, c),
+            CType::U32 => heavy_typed!(u32, c),
+            CType::U64 => heavy_typed!(u64, c),
+            CType::Usize => heavy_typed!(usize, c),
+        };
+        match r {
+            Err((sig, msg)) => fail(sig, msg),
+            Ok(found) => Verdict::Pass(Info::new(found, hash_json(c)).class_if(found, "disjoint_pair_found").class_if(!found, "no_disjoint_pair")),
+        }
+    }
+}
+
+pub fn heavy_strategy() -> BoxedStrategy<HeavyCase> {
+    (2usize..=1024, 1usize..=5, prop_oneof![Just(CType::U8), Just(CType::U16), Just(CType::U32), Just(CType::U64), Just(CType::Usize)], any::<u64>(), any::<u16>(), any::<u16>())
+        .prop_map(|(w, d, ctype, seed, fa, fb)| HeavyCase { w, d, ctype, seed, fa, fb })
+        .boxed()
 }
